@@ -880,7 +880,7 @@ func (e *Engine) handleOverflow(ctx context.Context, p peer.ID, overflow, wants 
 	// lowest priority items first.
 	existingWants := e.peerLedger.WantlistForPeer(p)
 	slices.SortFunc(existingWants, func(a, b wl.Entry) int {
-		return cmp.Compare(b.Priority, a.Priority)
+		return cmp.Compare(a.Priority, b.Priority)
 	})
 
 	queuedWantKs := cid.NewSet()
